@@ -43,7 +43,13 @@ CONSTANTS KPublished, KLoader,
           Forms,       \* other ways to write the LAST key / entry of a walk: "null" (`key: ~`, `- ~`, a dangling `-`) and
                        \* "empty" (`{}` without anything, `[]`, "", false, 0) - values that are falsy, not absent
           Carriers,    \* how the unknown key reaches the file: "plain", "merge" (`<<: {k: v}`), "bom" (plain, the file starts
-                       \* with a byte order mark), "seconddoc" (at the root of a second YAML document after `---`)
+                       \* with a byte order mark), "seconddoc" (in a further YAML document of the file, after `---`)
+          MaxGap,      \* "seconddoc": the further document comes after 0..MaxGap EMPTY documents (it is the 2nd .. (MaxGap+2)th
+                       \* document of the stream): a loader that stops looking at the first empty document never sees it
+          EmptyDocs,   \* how those empty documents are written: "bare" (`---` directly followed by `---`), "comment" (a
+                       \* comment line only), "null" (`--- ~`), "end" (`---` closed by the document end marker `...`)
+          DocLoads,    \* what the further document carries: "key" (the unknown key at its root), "rule" (a rule list whose
+                       \* only entry has no action: `passes: [{}]`)
           MaxSteps,    \* longest walk (mapping nodes, root included); 2 = root and the entries of its lists, which is
                        \* what the quick tier uses to try an EMPTY rule at every position among valid rules
           Slice, NSlices \* quick tier: only every NSlices-th member of a rule union is entered (NSlices = 1: all)
@@ -117,17 +123,20 @@ VARIABLES file,    \* file kind
           style,   \* spelling of the injected key(s)
           pos,     \* position of the entry in the innermost list of the walk
           form,    \* "map" | "null" | "empty": how the last key / entry of the walk is written
-          carrier  \* how the unknown key reaches the file
-vars == <<file, steps, leaf, inj, style, pos, form, carrier>>
+          carrier, \* how the unknown key reaches the file
+          tail     \* carrier "seconddoc": [gap |-> number of empty documents before the further document, empty |-> how they
+                   \* are written, load |-> <<>> (the unknown key at the root) or the path of the rule list with the empty entry]
+vars == <<file, steps, leaf, inj, style, pos, form, carrier, tail>>
 
 NoLeaf == [k |-> "", why |-> "", pub |-> "", ldr |-> ""]
+NoTail == [gap |-> 0, empty |-> "", load |-> <<>>]
 Deepest == steps[Len(steps)]
 P == Node(KPublished, file, Deepest.pub)
 L == Node(KLoader, file, Deepest.ldr)
 
 Init == /\ file \in Files
         /\ steps = << [at |-> <<>>, pub |-> KPublished[file].root, ldr |-> KLoader[file].root] >>
-        /\ leaf = NoLeaf /\ inj = {} /\ style = "fresh" /\ pos = 0 /\ form = "map" /\ carrier = "plain"
+        /\ leaf = NoLeaf /\ inj = {} /\ style = "fresh" /\ pos = 0 /\ form = "map" /\ carrier = "plain" /\ tail = NoTail
 
 RECURSIVE Unlist(_, _, _, _)
 Unlist(f, p, l, at) ==
@@ -147,7 +156,7 @@ Descend(k) ==
   /\ k \in KeySet(P) \cup KeySet(L)
   /\ InSlice(k)
   /\ Len(steps) < MaxSteps
-  /\ UNCHANGED <<file, inj, style, form, carrier>>
+  /\ UNCHANGED <<file, inj, style, form, carrier, tail>>
   /\ IF k \notin KeySet(L)
      THEN leaf' = [k |-> k, why |-> "only-published", pub |-> Child(P, k), ldr |-> ""] /\ UNCHANGED <<steps, pos>>
      ELSE IF k \notin KeySet(P)
@@ -176,12 +185,17 @@ InjectUnknownKey(S, u, c) ==
   \* grammar is the deepest node of some walk, so every node kind still meets every spelling and carrier
   /\ (u \in {"midcase", "param"} \/ c = "merge") => S = {Len(steps)}
   /\ inj' = S /\ style' = u /\ carrier' = c
-  /\ UNCHANGED <<file, steps, leaf, pos, form>>
-(* the unknown key at the root of a SECOND YAML document of the same file *)
-SecondDocument ==
+  /\ UNCHANGED <<file, steps, leaf, pos, form, tail>>
+(* the unknown key (or a rule entry without action) in a FURTHER YAML document of the same file: the document right    *)
+(* after the configuration, or one that only comes after g empty documents - wherever it stands in the stream, what it  *)
+(* holds is part of the file                                                                                            *)
+DocLoadsOf(f) == (IF "key" \in DocLoads THEN {<<>>} ELSE {})
+                 \cup (IF "rule" \in DocLoads THEN {rl[2] : rl \in {x \in RuleLists : x[1] = f}} ELSE {})
+SecondDocument(g, e, ld) ==
   /\ Pristine /\ "seconddoc" \in Carriers
   /\ Len(steps) = 1 /\ leaf.k = ""       \* a property of the file, not of a node: once per file kind
-  /\ carrier' = "seconddoc"
+  /\ g \in 0..MaxGap /\ e \in (IF g = 0 THEN {""} ELSE EmptyDocs) /\ ld \in DocLoadsOf(file)
+  /\ carrier' = "seconddoc" /\ tail' = [gap |-> g, empty |-> e, load |-> ld]
   /\ UNCHANGED <<file, steps, leaf, inj, style, pos, form>>
 
 (* EmptyRule: the walk stopped at a rule entry - the entry `{}` has no action.   *)
@@ -198,11 +212,11 @@ ValueForm(f) ==
   /\ ~(f = "empty" /\ AtEmptyRule)          \* `{}` at a rule entry is the state itself
   /\ leaf.why \notin {"only-published", "only-loader"}
   /\ form' = f
-  /\ UNCHANGED <<file, steps, leaf, inj, style, pos, carrier>>
+  /\ UNCHANGED <<file, steps, leaf, inj, style, pos, carrier, tail>>
 
 Next == \/ \E k \in KeySet(P) \cup KeySet(L) : Descend(k)
         \/ \E S \in SUBSET (DOMAIN steps), u \in Styles, c \in Carriers : InjectUnknownKey(S, u, c)
-        \/ SecondDocument
+        \/ \E g \in 0..MaxGap, e \in EmptyDocs \cup {""}, ld \in DocLoadsOf(file) : SecondDocument(g, e, ld)
         \/ \E f \in Forms : ValueForm(f)
 Spec == Init /\ [][Next]_vars
 
@@ -220,8 +234,11 @@ StepNulls(i) == IF form # "null" THEN {}
                 ELSE IF i = Len(steps) - 1 /\ ~LastIsEntry THEN {ViaKey(i)} ELSE {}
 WalkNodes == [i \in 1..(IF Dropped THEN Len(steps) - 1 ELSE Len(steps)) |->
                 [at |-> steps[i].at, keys |-> StepKeys(i), nulls |-> StepNulls(i)]]
-Doc == [file |-> file,
-        nodes |-> IF carrier = "seconddoc" THEN Append(WalkNodes, [at |-> <<>>, keys |-> {Unknown}, nulls |-> {}]) ELSE WalkNodes]
+(* the mapping nodes of the further document (empty documents have none) *)
+TailNodes == IF carrier # "seconddoc" THEN <<>>
+             ELSE IF tail.load = <<>> THEN << [at |-> <<>>, keys |-> {Unknown}, nulls |-> {}] >>
+             ELSE << [at |-> <<>>, keys |-> {tail.load[1]}, nulls |-> {}], [at |-> tail.load, keys |-> {}, nulls |-> {}] >>
+Doc == [file |-> file, nodes |-> WalkNodes \o TailNodes]
 
 (* ------------------------------ SameLanguage ----------------------------- *)
 (* evaluated at every node pair the walks reach: complete for the (infinite)    *)
@@ -236,7 +253,7 @@ OnlyPublished == IF P.kind = "map" /\ L.kind = "map" THEN KeySet(P) \ KeySet(L) 
 OnlyLoader    == IF P.kind = "map" /\ L.kind = "map" THEN KeySet(L) \ KeySet(P) ELSE {}
 
 (* ------------------------------- invariants ------------------------------ *)
-TypeOK == IsMapping(P) /\ IsMapping(L) /\ inj \subseteq DOMAIN steps
+TypeOK == IsMapping(P) /\ IsMapping(L) /\ inj \subseteq DOMAIN steps /\ (carrier # "seconddoc" => tail = NoTail)
 (* to be ASSUMEd by the model: Unknown really is unknown, the roots are mappings *)
 UnknownIsUnknown ==
   \A f \in Files : /\ \A id \in DOMAIN KLoader[f].nodes : Unknown \notin KeySet(KLoader[f].nodes[id])
@@ -252,7 +269,7 @@ ValidIsAccepted ==
   (Pristine /\ ~AtEmptyRule /\ leaf.why \notin {"only-published", "only-loader"})
      => (ShouldAccept(KLoader, Doc) /\ KeysOK(KPublished, Doc))
 
-Case == [file |-> file, steps |-> steps, leaf |-> leaf, inj |-> inj, style |-> style, pos |-> pos, npos |-> MaxPos + 1, form |-> form, carrier |-> carrier,
+Case == [file |-> file, steps |-> steps, leaf |-> leaf, inj |-> inj, style |-> style, pos |-> pos, npos |-> MaxPos + 1, form |-> form, carrier |-> carrier, tail |-> tail,
          expl |-> ShouldAccept(KLoader, Doc), expp |-> KeysOK(KPublished, Doc),
          emptyrule |-> AtEmptyRule]
 Emit == PrintT(<<"CASE", ToJson(Case)>>)
